@@ -128,10 +128,46 @@ func main() {
 		used := map[int]bool{}
 		var altNames [][]string
 		scopesOf := map[int][]string{}
+		dead := make([]bool, len(op.Alts)) // alternatives with a scheme the generator cannot implement: never satisfiable
+		live := map[int]bool{}             // schemes of the other alternatives
+		for ai, a := range op.Alts {
+			for _, s := range a.Schemes {
+				if spec.Schemes[s].Kind == "unsupported" {
+					dead[ai] = true
+				}
+			}
+			if !dead[ai] {
+				for _, s := range a.Schemes {
+					live[s] = true
+				}
+			}
+		}
+		// schemes of an alternative are visited in name order; the supported ones before the first
+		// unimplemented one are known to the generator when it gives the alternative up
+		leftover := false
+		for _, a := range op.Alts {
+			firstDead := ""
+			for _, s := range a.Schemes {
+				if n := spec.Schemes[s].Name; spec.Schemes[s].Kind == "unsupported" && (firstDead == "" || n < firstDead) {
+					firstDead = n
+				}
+			}
+			for _, s := range a.Schemes {
+				if firstDead != "" && spec.Schemes[s].Kind != "unsupported" && spec.Schemes[s].Name < firstDead {
+					leftover = true
+				}
+			}
+		}
+		allDead := len(op.Alts) > 0
+		for _, d := range dead {
+			allDead = allDead && d
+		}
 		for _, a := range op.Alts {
 			var names []string
 			for j, s := range a.Schemes {
-				used[s] = true
+				if spec.Schemes[s].Kind != "unsupported" {
+					used[s] = true
+				}
 				names = append(names, spec.Schemes[s].Name)
 				if a.Scopes != nil && j < len(a.Scopes) && a.Scopes[j] != nil {
 					scopesOf[s] = append(scopesOf[s], a.Scopes[j]...)
@@ -299,14 +335,18 @@ func main() {
 				srv.ServeHTTP(rec, req)
 			}()
 			code = rec.Code
-			anyBad, sat := false, len(op.Alts) == 0
+			anyBad, badOnlyDead, sat := false, false, len(op.Alts) == 0
 			for _, s := range idx {
 				if state[s] == "bad" {
-					anyBad = true
+					if live[s] {
+						anyBad = true
+					} else {
+						badOnlyDead = true
+					}
 				}
 			}
-			for _, a := range op.Alts {
-				all := true
+			for ai, a := range op.Alts {
+				all := !dead[ai]
 				for _, s := range a.Schemes {
 					if state[s] != "ok" {
 						all = false
@@ -325,10 +365,18 @@ func main() {
 			report := func(class string) {
 				drv.Violation(map[string]string{"class": class}, size, k)
 			}
+			if allDead {
+				k.Want += " (every alternative needs a scheme the generator does not implement)"
+			}
 			switch {
 			case pan != nil:
 				k.Want = fmt.Sprint("panic: ", pan)
 				report("server-panic")
+			case want && badOnlyDead:
+				// a hard reject from a scheme that only unimplementable alternatives name: whether the
+				// server still consults it is not fixed by the property
+			case handled && allDead:
+				drv.Violation(map[string]string{"class": "handler-invoked-although-no-alternative-is-satisfied", "structure": "every-alternative-needs-an-unimplemented-scheme", "supported_scheme_seen_before_the_unimplemented_one": fmt.Sprint(leftover), "presented": fmt.Sprint(anyPresented)}, size, k)
 			case handled && !want && anyBad:
 				report("handler-invoked-despite-hard-reject")
 			case handled && !want:
@@ -336,7 +384,7 @@ func main() {
 			case !handled && want:
 				report("refused-although-an-alternative-is-satisfied")
 			}
-			if !handled && code != 401 {
+			if !handled && code != 401 && pan == nil {
 				report(fmt.Sprintf("refused-with-status-%d-instead-of-401", code))
 			}
 			if handled && code != 501 {
@@ -385,6 +433,9 @@ func main() {
 		}
 		si := op.Alts[0].Schemes[0]
 		s := spec.Schemes[si]
+		if s.Kind == "unsupported" {
+			continue
+		}
 		m := cv.MethodByName(strings.ToUpper(op.ID[:1]) + op.ID[1:])
 		if !m.IsValid() {
 			drv.Fatal("client has no method for %s", op.ID)
@@ -456,13 +507,16 @@ func main() {
 		}
 		m := cv.MethodByName(strings.ToUpper(op.ID[:1]) + op.ID[1:])
 		for ai, a := range op.Alts {
-			authz := 0
+			authz, unsupported := 0, false
 			for _, s := range a.Schemes {
 				if isAuthz(spec.Schemes[s].Kind) {
 					authz++
 				}
+				if spec.Schemes[s].Kind == "unsupported" {
+					unsupported = true
+				}
 			}
-			if authz > 1 {
+			if authz > 1 || unsupported {
 				continue
 			}
 			evals++
